@@ -21,6 +21,7 @@ RULE = (
     "non-default selection; distinct by spec."
     ' Also: the same path listed twice, tile-compressed image HDUs, data cubes in three axis orders, a selection one past the end of th'
     'e shortest file (an error is demanded), the collection re-used after being analysed for tiling.'
+    " Round 8: entries counted from the end of a file; one selection list object used for two collections of different file lengths; the caller's list must stay unchanged."
 )
 ASSUMPTIONS = ["marker values and CRPIX encodings make the loaded HDU / WCS solution unambiguous"]
 KEYS = [" ", "A", "B"]
